@@ -4,3 +4,4 @@ import HoloModel.Rigid
 import HoloModel.Fourier
 import HoloModel.ImgProc
 import HoloModel.Prior
+import HoloModel.Geometry
